@@ -149,6 +149,18 @@ impl ZchDynamicState {
             ZchEnabledState::Disabled => {}
         }
         if self.zchd_ticks_since_state_change > TICKS_UNTIL_FORCE_STATE_RESET {
+            #[cfg(kanata_verif)]
+            if self.zchd_enabled_state != ZchEnabledState::Enabled
+                || self.zchd_last_press != ZchLastPressClassification::IsChord
+                || self.zchd_prioritized_chords.is_some()
+                || !self.zchd_input_keys.zchik_is_empty()
+                || self.zchd_is_lsft_active
+                || self.zchd_is_rsft_active
+                || self.zchd_is_altgr_active
+            {
+                crate::verif_seam::ZCH_EFFECTIVE_FORCED_RESETS
+                    .fetch_add(1, ::core::sync::atomic::Ordering::Relaxed);
+            }
             self.zchd_reset();
         }
     }
